@@ -83,13 +83,21 @@ def seeds_selftest(ids):
             print(meta["id"], "patch no longer applies:", r.stderr.strip()[:100])
             failed.append(meta["id"])
             continue
+        # the quick check of the seed's own property must report it; the few seeds that only
+        # neighbouring checks catch (meta.detected_by without the own property) are run against those
+        targets = [prop] if prop in meta.get("detected_by", [prop]) else list(meta.get("detected_by", []))
+        hit, shown = False, ""
         try:
-            out = subprocess.run([os.path.join(C.VERIF, "check"), prop, "--tier", "quick"], capture_output=True, text=True, timeout=2400)
+            for t in targets:
+                out = subprocess.run([os.path.join(C.VERIF, "check"), t, "--tier", "quick"], capture_output=True, text=True, timeout=2400)
+                m = re.search(r"  %s: ([^\n]{0,120})" % t, out.stdout + out.stderr)
+                shown = m.group(1) if m else ""
+                if out.returncode == 1 and ("VIOLATION property=%s" % t) in out.stdout:
+                    hit = True
+                    break
         finally:
             subprocess.run(["git", "-C", C.REPO, "checkout", "--", "."])
-        hit = out.returncode == 1 and ("VIOLATION property=%s" % prop) in out.stdout
-        m = re.search(r"  %s: ([^\n]{0,120})" % prop, out.stderr)
-        print("%-8s %-4s %s  %s" % (meta["id"], prop, "DETECTED" if hit else "MISSED(exit %d)" % out.returncode, m.group(1) if m else ""))
+        print("%-9s %-4s %s  %s" % (meta["id"], prop, ("DETECTED by %s" % t) if hit else "MISSED(exit %d)" % out.returncode, shown), flush=True)
         if not hit:
             failed.append(meta["id"])
     print("seeds selftest: %d of %d detected" % (len(dirs) - len(failed), len(dirs)), "missed:", failed)
